@@ -75,6 +75,10 @@ def _run_ob(args):
     mod = importlib.import_module(f"props.{pid}")
     for o in mod.obligations(tier):
         if o.name == name:
+            if tier == "thorough" and isinstance(o, obmod.Symx) and o.budget_s is None:
+                # every thorough obligation ends: what is not exhausted within the budget is reported as inconclusive
+                # (paths explored so far are in the evidence; nothing is claimed for the rest)
+                o.budget_s = float(os.environ.get("VERIF_THOROUGH_BUDGET_S", "1500"))
             try:
                 return o.run(known_keys, seed).as_dict()
             except Exception:  # noqa
